@@ -435,3 +435,53 @@ Proof.
     rewrite <- HL, HS; [apply res_eqb_refl| |exact TFp].
     unfold member_nodes. apply Permutation_map, sort_asc_perm.
 Qed.
+
+(* ---------- the clauses one by one (projections of history_locations) ---------- *)
+Section Clauses.
+  Variables key T : Type.
+  Variable ltb : T -> T -> bool.
+  Variable score : node -> key -> T.
+  Variables (maxr : Z) (first : list N * list N) (steps : list (list N * list N)) (k : key).
+  Hypothesis WF : history_wf first steps = true.
+  Notation loc := (locations ltb score (run_ring maxr first steps) k).
+
+  Lemma cl_nonempty : exists l, loc = Locs l /\ l <> [].
+  Proof. destruct (history_locations _ _ ltb score maxr first steps k WF) as (ns & l & _ & HL & _ & Hne & _). eauto. Qed.
+
+  Lemma cl_subset_members l : loc = Locs l -> forall a, In a l -> In a (fst (last_step first steps)).
+  Proof.
+    destruct (history_locations _ _ ltb score maxr first steps k WF) as (ns & l' & _ & HL & _ & _ & Hs & _).
+    rewrite HL. intros E. inversion E. subst. exact Hs.
+  Qed.
+
+  Lemma cl_all_healthy l : loc = Locs l -> snd (last_step first steps) <> [] ->
+    forall a, In a l -> In a (snd (last_step first steps)).
+  Proof.
+    destruct (history_locations _ _ ltb score maxr first steps k WF) as (ns & l' & _ & HL & _ & _ & _ & Hh & _).
+    rewrite HL. intros E. inversion E. subst. exact Hh.
+  Qed.
+
+  Lemma cl_bounded l : loc = Locs l -> (length l <= Nat.max 1 (Z.to_nat (apply_defaults maxr)))%nat.
+  Proof.
+    destruct (history_locations _ _ ltb score maxr first steps k WF) as (ns & l' & _ & HL & _ & _ & _ & _ & Hb).
+    rewrite HL. intros E. inversion E. subst. exact Hb.
+  Qed.
+
+  Lemma cl_characterisation :
+    exists ns, Permutation ns (member_nodes (fst (last_step first steps))) /\
+               loc = Locs (spec_locations (apply_defaults maxr) (snd (last_step first steps)) (ordered ltb score ns k)).
+  Proof.
+    destruct (history_locations _ _ ltb score maxr first steps k WF) as (ns & l & HP & HL & El & _).
+    exists ns. split; [exact HP|]. rewrite HL, El. reflexivity.
+  Qed.
+End Clauses.
+
+Lemma shard_only {T : Type} (ltb : T -> T -> bool) (score : node -> list N -> T) r h1 h2 :
+  firstn 4 h1 = firstn 4 h2 -> locations_digest ltb score r h1 = locations_digest ltb score r h2.
+Proof. unfold locations_digest, shard_id. intros ->. reflexivity. Qed.
+
+(* with tied scores two discovery orders of the same membership disagree: the hypothesis of
+   order_independent cannot be dropped (on the real ring this needs a 64-bit murmur3 collision) *)
+Lemma order_independent_ties_refuted :
+  exists r, locations N.ltb tscore (new_ring 1 [0; 1]%N [0; 1]%N) r <> locations N.ltb tscore (new_ring 1 [1; 0]%N [0; 1]%N) r.
+Proof. exists [5; 5]%N. vm_compute. discriminate. Qed.
